@@ -31,22 +31,25 @@ Slice(n, s) == Mk("slice", n, Rep(n, s))
 One(k, s) == Mk(k, 1, <<s>>)
 NoneOf(s) == Mk("none", 0, <<s>>)     \* Option<S> holding None: the type mentions S, the value has no leaf
 
-\* a mutably borrowed RefCell hides its content from trace and from finalize
-Opaque(k) == k \in {"cellb"}
+\* a borrowed RefCell hides its content from trace ("cellb" = mutably borrowed, "cells" = a shared borrow is outstanding);
+\* finalize is forwarded unless the borrow is a mutable one
+OpaqueT(k) == k \in {"cellb", "cells"}
+OpaqueF(k) == k \in {"cellb"}
 Empty(k) == k \in {"none", "weak", "cleaner", "cleanable", "phantom", "prim"}
 
-RECURSIVE Visits(_, _)
+RECURSIVE Visits(_, _, _)
 \* sequence of [t |-> traced, f |-> finalized], one entry per leaf of the value
-Visits(s, vis) ==
-  IF s.k = "leaf" THEN <<[t |-> vis, f |-> vis]>>
+Visits(s, vt, vf) ==
+  IF s.k = "leaf" THEN <<[t |-> vt, f |-> vf]>>
   ELSE IF Empty(s.k) THEN <<>>
-  ELSE LET v == vis /\ ~Opaque(s.k)
+  ELSE LET t == vt /\ ~OpaqueT(s.k)
+           f == vf /\ ~OpaqueF(s.k)
            RECURSIVE Cat(_)
-           Cat(i) == IF i > Len(s.c) THEN <<>> ELSE Visits(s.c[i], v) \o Cat(i + 1)
+           Cat(i) == IF i > Len(s.c) THEN <<>> ELSE Visits(s.c[i], t, f) \o Cat(i + 1)
        IN Cat(1)
 
 \* ------------------------------------------------------------------ enumeration
-Wrappers == {"box", "md", "aus", "some", "ok", "err", "cell", "cellb"}
+Wrappers == {"box", "md", "aus", "some", "ok", "err", "cell", "cellb", "cells"}
 Depth1 ==
   {Tup(Rep(n, Leaf)) : n \in 1..12}
   \cup {Arr(n, Leaf) : n \in {0, 1, 2, 3, 32}}
@@ -55,7 +58,7 @@ Depth1 ==
   \cup {One(k, Leaf) : k \in Wrappers}
   \cup {NoneOf(Leaf)}
 Inner == {Tup(Rep(2, Leaf)), Arr(2, Leaf), Vec_(1, Leaf), One("box", Leaf), One("some", Leaf), NoneOf(Leaf), One("ok", Leaf), One("err", Leaf),
-          One("cell", Leaf), One("cellb", Leaf), One("md", Leaf), One("aus", Leaf)}
+          One("cell", Leaf), One("cellb", Leaf), One("cells", Leaf), One("md", Leaf), One("aus", Leaf)}
 Depth2 ==
   {Tup(<<i, Leaf>>) : i \in Inner} \cup {Tup(<<Leaf, i, Leaf>>) : i \in Inner}
   \cup {Arr(2, i) : i \in Inner} \cup {Vec_(2, i) : i \in Inner} \cup {Slice(1, i) : i \in Inner}
@@ -64,7 +67,7 @@ Depth2 ==
 Silent == {Tup(<<Mk(k, 0, <<>>), Leaf>>) : k \in {"weak", "cleaner", "cleanable", "phantom", "prim"}}
 AllShapes == Depth1 \cup Depth2 \cup Silent
 
-ShapeRows == {[shape |-> s, visits |-> Visits(s, TRUE)] : s \in AllShapes}
+ShapeRows == {[shape |-> s, visits |-> Visits(s, TRUE, TRUE)] : s \in AllShapes}
 
 \* ------------------------------------------------------------------ derive definitions (C18)
 \* a field list = sequence of ignore flags; kinds of field lists: unit, tuple, named
@@ -86,7 +89,7 @@ DeriveVisits(d) == LET v == d.variants[d.active] IN [i \in 1..Len(v.fl.ign) |-> 
 DefRows == {[d |-> d, visits |-> DeriveVisits(d)] : d \in {x \in StructDefs \cup EnumDefs : ValidDef(x)}}
 
 \* sanity of the oracle itself
-Laws == /\ \A r \in ShapeRows : \A i \in DOMAIN r.visits : r.visits[i].t = r.visits[i].f
+Laws == /\ \A r \in ShapeRows : \A i \in DOMAIN r.visits : r.visits[i].t => r.visits[i].f   \* whatever is traced is also finalized
         /\ \A r \in DefRows : Len(r.visits) = Len(r.d.variants[r.d.active].fl.ign)
 
 RECURSIVE SetToSeq(_)
